@@ -217,6 +217,27 @@ BREAKING = [
     ('c15-class-ctx-no-line', ['C15'], [(A, 'def log_constant(pass_name, item, value):', 'class LineErrors:\n    """re-raise the given low-level errors of the enclosed block as AssemblerErrors of a line"""\n\n    def __init__(self, line, *types):\n        self.line = line\n        self.types = types\n\n    def __enter__(self):\n        return self\n\n    def __exit__(self, exc_type, exc, tb):\n        if exc_type is not None and issubclass(exc_type, self.types):\n            raise AssemblerError(str(exc), None) from exc\n        return False\n\n\ndef log_constant(pass_name, item, value):'), (A, '        try:\n            # atomic insts expect aq and rl as kwargs\n            if isinstance(item, ATypeInstruction) or isinstance(item, ALTypeInstruction):\n                *args, aq, rl = item.args()\n                code = encode_func(*args, aq=aq, rl=rl)\n            else:\n                args = item.args()\n                code = encode_func(*args)\n        except ValueError as e:\n            raise AssemblerError(str(e), item.line)\n', '        with LineErrors(item.line, ValueError):\n            # atomic insts expect aq and rl as kwargs\n            if isinstance(item, (ATypeInstruction, ALTypeInstruction)):\n                *args, aq, rl = item.args()\n                code = encode_func(*args, aq=aq, rl=rl)\n            else:\n                code = encode_func(*item.args())\n')]),
     ('c15-decorator-wrong-type', ['C15'], [(A, 'def resolve_instructions(items):', 'def converts_value_errors(fn):\n    def wrapper(item):\n        try:\n            return fn(item)\n        except KeyError as e:\n            raise AssemblerError(str(e), item.line)\n    return wrapper\n\n\n@converts_value_errors\ndef encode_item(item):\n    encode_func = INSTRUCTIONS[item.name]\n    if isinstance(item, (ATypeInstruction, ALTypeInstruction)):\n        *args, aq, rl = item.args()\n        return encode_func(*args, aq=aq, rl=rl)\n    return encode_func(*item.args())\n\n\ndef resolve_instructions(items):'), (A, '        encode_func = INSTRUCTIONS[item.name]\n        try:\n            # atomic insts expect aq and rl as kwargs\n            if isinstance(item, ATypeInstruction) or isinstance(item, ALTypeInstruction):\n                *args, aq, rl = item.args()\n                code = encode_func(*args, aq=aq, rl=rl)\n            else:\n                args = item.args()\n                code = encode_func(*args)\n        except ValueError as e:\n            raise AssemblerError(str(e), item.line)\n', '        code = encode_item(item)\n')]),
     ('c15-registry-misses-pass', ['C15'], [(A, 'def resolve_strings(items):', 'LATE_PASSES = []\n\n\ndef late_pass(fn):\n    LATE_PASSES.append(fn)\n    return fn\n\n\n@late_pass\ndef resolve_strings(items):'), (A, 'def resolve_sequences(items):', '@late_pass\ndef resolve_sequences(items):'), (A, 'def transform_shorthand_packs(items):', '@late_pass\ndef transform_shorthand_packs(items):'), (A, 'def resolve_include_bytes(items):', '@late_pass\ndef resolve_include_bytes(items):'), (A, '    items = resolve_strings(items)\n    items = resolve_sequences(items)\n    items = transform_shorthand_packs(items)\n    items = resolve_packs(items)\n    items = resolve_include_bytes(items)\n', '    for late in LATE_PASSES:\n        items = late(items)\n')]),
+    # white-box round: reshaped handlers, guards that are sufficient, numbering pipelines
+    ('c15-handler-filter-wrong-type', ['C15'], [(A, '        except ValueError as e:\n            raise AssemblerError(str(e), item.line)\n\n        # pack into 2 bytes', '        except Exception as e:\n            if not isinstance(e, KeyError):\n                raise\n            raise AssemblerError(str(e), item.line)\n\n        # pack into 2 bytes')]),
+    ('c15-is-int-guard-other-value', ['C15'], [(A, "        try:\n            alignment = int(alignment, base=0)\n        except ValueError:\n            raise AssemblerError('alignment must be an integer', line)\n", "        if not is_int(tokens[0] or alignment):\n            raise AssemblerError('alignment must be an integer', line)\n        alignment = int(alignment, base=0)\n")]),
+    ('c15-enumerate-list-copy-zero', ['C15'], [(A, '    for i, raw_line in enumerate(source.splitlines(), start=1):\n', '    for i, raw_line in enumerate(list(source.splitlines()), start=0):\n')]),
+    ('c15-zip-count-zero', ['C15'], [(A, 'import abc\n', 'import abc\nimport itertools\n'), (A, '    for i, raw_line in enumerate(source.splitlines(), start=1):\n', '    for i, raw_line in zip(itertools.count(0), source.splitlines()):\n')]),
+    ('c15-isdigit-guard', ['C15'], [(A, "        try:\n            alignment = int(alignment, base=0)\n        except ValueError:\n            raise AssemblerError('alignment must be an integer', line)\n", "        if alignment.isdigit() and not alignment.startswith('0'):\n            alignment = int(alignment)\n        else:\n            try:\n                alignment = int(alignment, base=0)\n            except ValueError:\n                raise AssemblerError('alignment must be an integer', line)\n")]),
+    ('c15-range-index-off-by-one', ['C15'], [(A, '    for i, raw_line in enumerate(source.splitlines(), start=1):\n', '    rows = source.splitlines()\n    for i in range(1, len(rows) + 1):\n        raw_line = rows[i - 1]\n'), (A, '        line = Line(path, i, raw_line)\n', '        line = Line(path, i + 1, raw_line)\n')]),
+    ('c15-blobs-any-guard-skips-pass', ['C15'], [(A, "    output = bytearray()\n    for item in items:\n        if not isinstance(item, Blob):\n            raise ValueError('expected only blobs at this point')\n\n        output.extend(item.data)\n", "    if any(not isinstance(item, Blob) for item in items):\n        raise ValueError('expected only blobs at this point')\n\n    output = bytearray()\n    for item in items:\n        output.extend(item.data)\n"), (A, '    items = resolve_strings(items)\n', '')]),
+    ('c15-range-guard-one-side', ['C15'], [(A, "        blob = Blob(item.line, data)\n        new_items.append(blob)\n\n        log_conversion('resolve_include_bytes', item, blob)", "        size = item.fsize\n        if size < 0:\n            raise AssemblerError('bad size', item.line)\n        log.info('size field: {}'.format(struct.pack('<I', size).hex()))\n        blob = Blob(item.line, data)\n        new_items.append(blob)\n\n        log_conversion('resolve_include_bytes', item, blob)")]),
+    ('c15-none-line-before-opaque-code', ['C15'], [(A, "            raise AssemblerError('alignment must be an integer', line)\n", "            raise AssemblerError('alignment must be an integer', None)\n"), (A, 'def resolve_blobs(items):\n', "def resolve_blobs(items):\n    exec('pass')\n")]),
+    # round 7: table lookups with user keys, conversions behind the repository's own predicate, elements read back
+    ('c15-sequence-constants-keyerror', ['C15'], [(A, 'def resolve_sequences(items):', 'def resolve_sequences(items, constants):'), (A, '    items = resolve_sequences(items)\n', '    items = resolve_sequences(items, constants)\n'), (A, '        try:\n            values = [int(value, base=0) for value in item.values]\n        except ValueError as e:\n            raise AssemblerError(str(e), item.line)\n', '        try:\n            values = [int(value, base=0) if is_int(value) else constants[value] for value in item.values]\n        except ValueError as e:\n            raise AssemblerError(str(e), item.line)\n')]),
+    ('c15-size-is-int-other-arg', ['C15'], [(A, "        if self.name in ['li', 'call', 'tail']:\n            return 8\n", "        if self.name == 'li' and len(self.args) == 2 and is_int(self.args[0]):\n            value = c_int32(int(self.args[1], base=0)).value\n            return 8 if value != value else 8\n        if self.name in ['li', 'call', 'tail']:\n            return 8\n")]),
+    ('c15-lookup-before-handler', ['C15'], [(A, '        # check if any set of criteria is all true for this item\n        compressed = None\n', "        if isinstance(item, RTypeInstruction) and item.name == 'slli' and lookup_register(item.rd) == 0:\n            log.debug('shift into x0')\n        # check if any set of criteria is all true for this item\n        compressed = None\n")]),
+    ('c15-byte-fastpath-unguarded', ['C15'], [(A, '            try:\n                value = struct.pack(fmt, value)\n', "            if item.name == 'bytes' and value >= 0:\n                data.extend(bytes([value]))\n                continue\n            try:\n                value = struct.pack(fmt, value)\n")]),
+    ('c15-error-builder-wrong-attr', ['C15'], [(A, "    def __init__(self, message, line):\n        super().__init__(message)\n        self.message = message\n        self.line = line\n\n    def __str__(self):\n        return '{}\\nAssemblerError: {}'.format(self.line, self.message)\n", "    def __init__(self, message, line):\n        super().__init__(message)\n        self.message = message\n        self.line = line\n\n    def at(self, line):\n        self.where = line\n        return self\n\n    def __str__(self):\n        return '{}\\nAssemblerError: {}'.format(self.line, self.message)\n"), (A, "            raise AssemblerError('alignment must be an integer', line)\n", "            raise AssemblerError('alignment must be an integer', None).at(line)\n")]),
+    ('c15-error-no-str-message-only', ['C15'], [(A, "    def __init__(self, message, line):\n        super().__init__(message)\n        self.message = message\n        self.line = line\n\n    def __str__(self):\n        return '{}\\nAssemblerError: {}'.format(self.line, self.message)\n", '    def __init__(self, message, line):\n        super().__init__(message)\n        self.message = message\n        self.line = line\n')]),
+    ('c15-error-str-alias-no-line', ['C15'], [(A, "    def __str__(self):\n        return '{}\\nAssemblerError: {}'.format(self.line, self.message)\n", "    def describe(self):\n        return 'AssemblerError: {}'.format(self.message)\n\n    __str__ = describe\n")]),
+    ('c15-lines-iter-zero', ['C15'], [(A, '    for i, raw_line in enumerate(source.splitlines(), start=1):\n', '    rows = iter(source.splitlines())\n    for i, raw_line in enumerate(rows, start=0):\n')]),
+    ('c15-lines-genexp-filtered', ['C15'], [(A, '    for i, raw_line in enumerate(source.splitlines(), start=1):\n', '    for i, raw_line in enumerate((row for row in source.splitlines() if row.strip()), start=1):\n')]),
+    ('c15-error-tuple-assign-none', ['C15'], [(A, "    def __init__(self, message, line):\n        super().__init__(message)\n        self.message = message\n        self.line = line\n\n    def __str__(self):\n        return '{}\\nAssemblerError: {}'.format(self.line, self.message)\n", "    def __init__(self, message, line):\n        super().__init__(message)\n        self.message, self.line = message, None\n\n    def __str__(self):\n        return '{}\\nAssemblerError: {}'.format(self.line, self.message)\n")]),
     ('c15-local-rule-class-no-try', ['C15'], [(A, '    position = 0\n    new_items = []\n    for item in items:\n        # skip non-instructions and pseudo-instructions\n', '    class Rule:\n        def __init__(self, form, checks):\n            self.form = form\n            self.checks = checks\n\n        def matches(self, item, position, env):\n            return all(check(item, position, env) for check in self.checks)\n\n    rules = [Rule(form, checks) for form, checks in criteria.items()]\n\n    position = 0\n    new_items = []\n    for item in items:\n        # skip non-instructions and pseudo-instructions\n', 0), (A, '        try:\n            for name, preds in criteria.items():\n                if all(pred(item, position, env) for pred in preds):\n                    compressed = name\n                    break\n        except ValueError as e:\n            raise AssemblerError(str(e), item.line)\n', '        for rule in rules:\n            if rule.matches(item, position, env):\n                compressed = rule.form\n                break\n')]),
     ('c15-while-index-zero-based', ['C15'], [(A, '    for i, raw_line in enumerate(source.splitlines(), start=1):\n', '    rows = source.splitlines()\n    i = -1\n    while i + 1 < len(rows):\n        i += 1\n        raw_line = rows[i]\n')]),
     ('c15-to-bytes-overflow', ['C15'], [(A, '                value = struct.pack(fmt, value)\n', "                value = value.to_bytes(struct.calcsize(fmt), 'little', signed=value < 0)\n")]),
@@ -384,6 +405,51 @@ PRESERVING = [
     ('p15-pass-registry', ['C15'], [(A, 'def resolve_strings(items):', 'LATE_PASSES = []\n\n\ndef late_pass(fn):\n    LATE_PASSES.append(fn)\n    return fn\n\n\n@late_pass\ndef resolve_strings(items):'), (A, 'def resolve_sequences(items):', '@late_pass\ndef resolve_sequences(items):'), (A, 'def transform_shorthand_packs(items):', '@late_pass\ndef transform_shorthand_packs(items):'), (A, 'def resolve_packs(items):', '@late_pass\ndef resolve_packs(items):'), (A, 'def resolve_include_bytes(items):', '@late_pass\ndef resolve_include_bytes(items):'), (A, '    items = resolve_strings(items)\n    items = resolve_sequences(items)\n    items = transform_shorthand_packs(items)\n    items = resolve_packs(items)\n    items = resolve_include_bytes(items)\n', '    for late in LATE_PASSES:\n        items = late(items)\n')]),
     ('p15-line-dataclass', ['C15'], [(A, 'class Line:\n\n    def __init__(self, file, number, contents):\n        self.file = file\n        self.number = number\n        self.contents = contents\n        # resolved path of the file named by an include_bytes line (set by the reader)\n        self.include_path = None\n', 'import dataclasses\nimport typing\n\n\n@dataclasses.dataclass\nclass Line:\n    file: str\n    number: int\n    contents: str\n    # resolved path of the file named by an include_bytes line (set by the reader)\n    include_path: typing.Optional[str] = None\n')]),
     ('p15-linetokens-namedtuple', ['C15'], [(A, 'class LineTokens:\n\n    def __init__(self, line, tokens):\n        self.line = line\n        self.tokens = tokens\n', 'import typing\n\n\nclass LineTokens(typing.NamedTuple):\n    line: Line\n    tokens: list\n'), (A, '    line = line_tokens.line\n    tokens = line_tokens.tokens\n', '    line, tokens = line_tokens\n')]),
+    ('p15-handler-filter-reraise', ['C15'], [(A, '        except ValueError as e:\n            raise AssemblerError(str(e), item.line)\n\n        # pack into 2 bytes', '        except Exception as e:\n            if not isinstance(e, ValueError):\n                raise\n            raise AssemblerError(str(e), item.line)\n\n        # pack into 2 bytes')]),
+    ('p15-is-int-guard', ['C15'], [(A, "        try:\n            alignment = int(alignment, base=0)\n        except ValueError:\n            raise AssemblerError('alignment must be an integer', line)\n", "        if not is_int(alignment):\n            raise AssemblerError('alignment must be an integer', line)\n        alignment = int(alignment, base=0)\n")]),
+    ('p15-enumerate-list-copy', ['C15'], [(A, '    for i, raw_line in enumerate(source.splitlines(), start=1):\n', '    for i, raw_line in enumerate(list(source.splitlines()), start=1):\n')]),
+    ('p15-zip-count', ['C15'], [(A, 'import abc\n', 'import abc\nimport itertools\n'), (A, '    for i, raw_line in enumerate(source.splitlines(), start=1):\n', '    for i, raw_line in zip(itertools.count(1), source.splitlines()):\n')]),
+    ('p15-line-rebuilt', ['C15'], [(A, "            line.contents = '{} {}'.format(raw_line, size)\n", "            line = Line(line.file, line.number, '{} {}'.format(raw_line, size))\n")]),
+    ('p15-str-args0', ['C15'], [(A, "        return '{}\\nAssemblerError: {}'.format(self.line, self.message)", "        return '{}\\nAssemblerError: {}'.format(self.line, self.args[0])")]),
+    ('p15-handler-const-tuple', ['C15'], [(A, 'def resolve_instructions(items):', 'ENCODING_ERRORS = (ValueError,)\n\n\ndef resolve_instructions(items):'), (A, '        except ValueError as e:\n            raise AssemblerError(str(e), item.line)\n\n        # pack into 2 bytes', '        except ENCODING_ERRORS as e:\n            raise AssemblerError(str(e), item.line)\n\n        # pack into 2 bytes')]),
+    ('p15-reraise-helper', ['C15'], [(A, 'def resolve_instructions(items):', 'def line_error(e, line):\n    raise AssemblerError(str(e), line)\n\n\ndef resolve_instructions(items):'), (A, '        except ValueError as e:\n            raise AssemblerError(str(e), item.line)\n\n        # pack into 2 bytes', '        except ValueError as e:\n            line_error(e, item.line)\n\n        # pack into 2 bytes')]),
+    ('p15-try-around-loop', ['C15'], [(A, '    new_items = []\n    for item in items:\n        if not isinstance(item, Pack):\n            new_items.append(item)\n            continue\n\n        try:\n            data = struct.pack(item.fmt, item.imm)\n        except struct.error as e:\n            raise AssemblerError(\'value {} does not fit pack format "{}": {}\'.format(item.imm, item.fmt, e), item.line)\n        blob = Blob(item.line, data)\n        new_items.append(blob)\n\n        log_conversion(\'resolve_packs\', item, blob)\n\n    return new_items\n', '    new_items = []\n    try:\n        for item in items:\n            if not isinstance(item, Pack):\n                new_items.append(item)\n                continue\n\n            data = struct.pack(item.fmt, item.imm)\n            blob = Blob(item.line, data)\n            new_items.append(blob)\n\n            log_conversion(\'resolve_packs\', item, blob)\n    except struct.error as e:\n        raise AssemblerError(\'value {} does not fit pack format "{}": {}\'.format(item.imm, item.fmt, e), item.line)\n\n    return new_items\n')]),
+    ('p15-isdecimal-guard', ['C15'], [(A, "        try:\n            alignment = int(alignment, base=0)\n        except ValueError:\n            raise AssemblerError('alignment must be an integer', line)\n", "        if alignment.isdecimal() and not alignment.startswith('0'):\n            alignment = int(alignment)\n        else:\n            try:\n                alignment = int(alignment, base=0)\n            except ValueError:\n                raise AssemblerError('alignment must be an integer', line)\n")]),
+    ('p15-regex-digits', ['C15'], [(A, 'def parse_item(line_tokens):', "RE_DECIMAL = re.compile(r'(\\d+)$')\n\n\ndef parse_item(line_tokens):"), (A, "        try:\n            alignment = int(alignment, base=0)\n        except ValueError:\n            raise AssemblerError('alignment must be an integer', line)\n", "        decimal = RE_DECIMAL.match(alignment)\n        if decimal is not None and not alignment.startswith('0'):\n            alignment = int(decimal.group(1))\n        else:\n            try:\n                alignment = int(alignment, base=0)\n            except ValueError:\n                raise AssemblerError('alignment must be an integer', line)\n")]),
+    ('p15-range-index-minus-one', ['C15'], [(A, '    for i, raw_line in enumerate(source.splitlines(), start=1):\n', '    rows = source.splitlines()\n    for i in range(1, len(rows) + 1):\n        raw_line = rows[i - 1]\n')]),
+    ('p15-items-by-index', ['C15'], [(A, '    for item in items:\n        if not isinstance(item, String):', '    for index in range(len(items)):\n        item = items[index]\n        if not isinstance(item, String):')]),
+    ('p15-line-through-dict', ['C15'], [(A, "        blob = Blob(item.line, item.value.encode('utf-8'))\n", "        ctx = {'line': item.line, 'text': item.value}\n        blob = Blob(ctx['line'], ctx['text'].encode('utf-8'))\n")]),
+    ('p15-blobs-any-guard', ['C15'], [(A, "    output = bytearray()\n    for item in items:\n        if not isinstance(item, Blob):\n            raise ValueError('expected only blobs at this point')\n\n        output.extend(item.data)\n", "    if any(not isinstance(item, Blob) for item in items):\n        raise ValueError('expected only blobs at this point')\n\n    output = bytearray()\n    for item in items:\n        output.extend(item.data)\n")]),
+    ('p15-blobs-all-guard', ['C15'], [(A, "    output = bytearray()\n    for item in items:\n        if not isinstance(item, Blob):\n            raise ValueError('expected only blobs at this point')\n\n        output.extend(item.data)\n", "    if not all(isinstance(item, Blob) for item in items):\n        raise ValueError('expected only blobs at this point')\n\n    output = bytearray()\n    for item in items:\n        output.extend(item.data)\n")]),
+    ('p15-blobs-filter-guard', ['C15'], [(A, "    output = bytearray()\n    for item in items:\n        if not isinstance(item, Blob):\n            raise ValueError('expected only blobs at this point')\n\n        output.extend(item.data)\n", "    if list(filter(lambda item: not isinstance(item, Blob), items)):\n        raise ValueError('expected only blobs at this point')\n\n    output = bytearray()\n    for item in items:\n        output.extend(item.data)\n")]),
+    ('p15-range-guard-or', ['C15'], [(A, "        blob = Blob(item.line, data)\n        new_items.append(blob)\n\n        log_conversion('resolve_include_bytes', item, blob)", "        size = item.fsize\n        if size < 0 or size > 0xffffffff:\n            raise AssemblerError('file too large', item.line)\n        log.info('size field: {}'.format(struct.pack('<I', size).hex()))\n        blob = Blob(item.line, data)\n        new_items.append(blob)\n\n        log_conversion('resolve_include_bytes', item, blob)")]),
+    ('p15-range-guard-chain', ['C15'], [(A, "        blob = Blob(item.line, data)\n        new_items.append(blob)\n\n        log_conversion('resolve_include_bytes', item, blob)", "        size = item.fsize\n        if not 0 <= size < 2 ** 64:\n            raise AssemblerError('file too large', item.line)\n        log.info('size field: {}'.format(size.to_bytes(8, 'little').hex()))\n        blob = Blob(item.line, data)\n        new_items.append(blob)\n\n        log_conversion('resolve_include_bytes', item, blob)")]),
+    ('p15-pack-length', ['C15'], [(A, "        blob = Blob(item.line, data)\n        new_items.append(blob)\n\n        log_conversion('resolve_include_bytes', item, blob)", "        log.info('length field: {}'.format(struct.pack('<I', len(data)).hex()))\n        blob = Blob(item.line, data)\n        new_items.append(blob)\n\n        log_conversion('resolve_include_bytes', item, blob)")]),
+    # round 7: table lookups with user keys, conversions behind the repository's own predicate, elements read back
+    ('p15-sequence-constants-in', ['C15'], [(A, 'def resolve_sequences(items):', 'def resolve_sequences(items, constants):'), (A, '    items = resolve_sequences(items)\n', '    items = resolve_sequences(items, constants)\n'), (A, '        try:\n            values = [int(value, base=0) for value in item.values]\n        except ValueError as e:\n            raise AssemblerError(str(e), item.line)\n', "        values = []\n        for value in item.values:\n            if is_int(value):\n                values.append(int(value, base=0))\n            elif value in constants:\n                values.append(constants[value])\n            else:\n                raise AssemblerError('invalid literal: {}'.format(value), item.line)\n")]),
+    ('p15-sequence-constants-not-in', ['C15'], [(A, 'def resolve_sequences(items):', 'def resolve_sequences(items, constants):'), (A, '    items = resolve_sequences(items)\n', '    items = resolve_sequences(items, constants)\n'), (A, '        try:\n            values = [int(value, base=0) for value in item.values]\n        except ValueError as e:\n            raise AssemblerError(str(e), item.line)\n', "        values = []\n        for value in item.values:\n            if is_int(value):\n                values.append(int(value, base=0))\n                continue\n            if value not in constants:\n                raise AssemblerError('invalid literal: {}'.format(value), item.line)\n            values.append(constants[value])\n")]),
+    ('p15-sequence-constants-get', ['C15'], [(A, 'def resolve_sequences(items):', 'def resolve_sequences(items, constants):'), (A, '    items = resolve_sequences(items)\n', '    items = resolve_sequences(items, constants)\n'), (A, '        try:\n            values = [int(value, base=0) for value in item.values]\n        except ValueError as e:\n            raise AssemblerError(str(e), item.line)\n', "        values = []\n        for value in item.values:\n            number = int(value, base=0) if is_int(value) else constants.get(value)\n            if number is None:\n                raise AssemblerError('invalid literal: {}'.format(value), item.line)\n            values.append(number)\n")]),
+    ('p15-sequence-constants-handler', ['C15'], [(A, 'def resolve_sequences(items):', 'def resolve_sequences(items, constants):'), (A, '    items = resolve_sequences(items)\n', '    items = resolve_sequences(items, constants)\n'), (A, '        try:\n            values = [int(value, base=0) for value in item.values]\n        except ValueError as e:\n            raise AssemblerError(str(e), item.line)\n', '        try:\n            values = [int(value, base=0) if is_int(value) else constants[value] for value in item.values]\n        except (ValueError, KeyError) as e:\n            raise AssemblerError(str(e), item.line)\n')]),
+    ('p15-sequence-constants-lookuperror', ['C15'], [(A, 'def resolve_sequences(items):', 'def resolve_sequences(items, constants):'), (A, '    items = resolve_sequences(items)\n', '    items = resolve_sequences(items, constants)\n'), (A, '        try:\n            values = [int(value, base=0) for value in item.values]\n        except ValueError as e:\n            raise AssemblerError(str(e), item.line)\n', "        try:\n            values = [int(value, base=0) if is_int(value) else constants[value] for value in item.values]\n        except LookupError as e:\n            raise AssemblerError('undefined constant: {}'.format(e), item.line)\n")]),
+    ('p15-size-is-int-literal', ['C15'], [(A, "        if self.name in ['li', 'call', 'tail']:\n            return 8\n", "        if self.name == 'li' and len(self.args) == 2 and is_int(self.args[1]):\n            value = c_int32(int(self.args[1], base=0)).value\n            return 8 if value != value else 8\n        if self.name in ['li', 'call', 'tail']:\n            return 8\n")]),
+    ('p15-byte-fastpath-guarded', ['C15'], [(A, '            try:\n                value = struct.pack(fmt, value)\n            except struct.error as e:\n                raise AssemblerError(\'value {} does not fit "{}": {}\'.format(value, item.name, e), item.line)\n            data.extend(value)\n', '            if item.name == \'bytes\' and 0 <= value < 256:\n                data.extend(bytes([value]))\n                continue\n            try:\n                value = struct.pack(fmt, value)\n            except struct.error as e:\n                raise AssemblerError(\'value {} does not fit "{}": {}\'.format(value, item.name, e), item.line)\n            data.extend(value)\n')]),
+    ('p15-byte-append-guarded', ['C15'], [(A, '            try:\n                value = struct.pack(fmt, value)\n            except struct.error as e:\n                raise AssemblerError(\'value {} does not fit "{}": {}\'.format(value, item.name, e), item.line)\n            data.extend(value)\n', '            if item.name == \'bytes\' and 0 <= value <= 255:\n                data.append(value)\n                continue\n            try:\n                value = struct.pack(fmt, value)\n            except struct.error as e:\n                raise AssemblerError(\'value {} does not fit "{}": {}\'.format(value, item.name, e), item.line)\n            data.extend(value)\n')]),
+    ('p15-range-check-to-bytes', ['C15'], [(A, '            try:\n                value = struct.pack(fmt, value)\n            except struct.error as e:\n                raise AssemblerError(\'value {} does not fit "{}": {}\'.format(value, item.name, e), item.line)\n            data.extend(value)\n', '            width = struct.calcsize(fmt)\n            if value < 0:\n                lo, hi = -(1 << (8 * width - 1)), (1 << (8 * width - 1)) - 1\n            else:\n                lo, hi = 0, (1 << (8 * width)) - 1\n            if not lo <= value <= hi:\n                raise AssemblerError(\'value {} does not fit "{}"\'.format(value, item.name), item.line)\n            data.extend(value.to_bytes(width, \'little\', signed=value < 0))\n')]),
+    ('p15-error-at-builder', ['C15'], [(A, "    def __init__(self, message, line):\n        super().__init__(message)\n        self.message = message\n        self.line = line\n\n    def __str__(self):\n        return '{}\\nAssemblerError: {}'.format(self.line, self.message)\n", "    def __init__(self, message, line):\n        super().__init__(message)\n        self.message = message\n        self.line = line\n\n    def at(self, line):\n        self.line = line\n        return self\n\n    def __str__(self):\n        return '{}\\nAssemblerError: {}'.format(self.line, self.message)\n"), (A, "            raise AssemblerError('alignment must be an integer', line)\n", "            raise AssemblerError('alignment must be an integer', None).at(line)\n")]),
+    ('p15-error-built-then-set', ['C15'], [(A, "            raise AssemblerError('alignment must be an integer', line)\n", "            error = AssemblerError('alignment must be an integer', None)\n            error.line = line\n            raise error\n")]),
+    ('p15-error-no-str', ['C15'], [(A, "    def __init__(self, message, line):\n        super().__init__(message)\n        self.message = message\n        self.line = line\n\n    def __str__(self):\n        return '{}\\nAssemblerError: {}'.format(self.line, self.message)\n", "    def __init__(self, message, line):\n        super().__init__('{}\\nAssemblerError: {}'.format(line, message))\n        self.message = message\n        self.line = line\n")]),
+    ('p15-error-str-helper', ['C15'], [(A, 'class AssemblerError(Exception):', "def render_error(error):\n    return '{}\\nAssemblerError: {}'.format(error.line, error.message)\n\n\nclass AssemblerError(Exception):"), (A, "    def __str__(self):\n        return '{}\\nAssemblerError: {}'.format(self.line, self.message)\n", '    def __str__(self):\n        return render_error(self)\n')]),
+    ('p15-error-str-alias', ['C15'], [(A, "    def __str__(self):\n        return '{}\\nAssemblerError: {}'.format(self.line, self.message)\n", "    def describe(self):\n        return '{}\\nAssemblerError: {}'.format(self.line, self.message)\n\n    __str__ = describe\n")]),
+    ('p15-error-tuple-assign', ['C15'], [(A, "    def __init__(self, message, line):\n        super().__init__(message)\n        self.message = message\n        self.line = line\n\n    def __str__(self):\n        return '{}\\nAssemblerError: {}'.format(self.line, self.message)\n", "    def __init__(self, message, line):\n        super().__init__(message)\n        self.message, self.line = message, line\n\n    def __str__(self):\n        return '{}\\nAssemblerError: {}'.format(self.line, self.message)\n")]),
+    ('p15-error-star-init', ['C15'], [(A, "    def __init__(self, message, line):\n        super().__init__(message)\n        self.message = message\n        self.line = line\n\n    def __str__(self):\n        return '{}\\nAssemblerError: {}'.format(self.line, self.message)\n", "    def __init__(self, *args):\n        super().__init__(args[0])\n        self.message, self.line = args\n\n    def __str__(self):\n        return '{}\\nAssemblerError: {}'.format(self.line, self.message)\n")]),
+    ('p15-line-str-alias', ['C15'], [(A, '    def __str__(self):\n        s = \'File "{}", line {}\\n  {}\'\n        s = s.format(self.file, self.number, self.contents.lstrip())\n        return s\n', '    def describe(self):\n        s = \'File "{}", line {}\\n  {}\'\n        s = s.format(self.file, self.number, self.contents.lstrip())\n        return s\n\n    __str__ = describe\n')]),
+    ('p15-lines-iter', ['C15'], [(A, '    for i, raw_line in enumerate(source.splitlines(), start=1):\n', '    rows = iter(source.splitlines())\n    for i, raw_line in enumerate(rows, start=1):\n')]),
+    ('p15-lines-star-copy', ['C15'], [(A, '    for i, raw_line in enumerate(source.splitlines(), start=1):\n', '    for i, raw_line in enumerate([*source.splitlines()], start=1):\n')]),
+    ('p15-lines-genexp-copy', ['C15'], [(A, '    for i, raw_line in enumerate(source.splitlines(), start=1):\n', '    for i, raw_line in enumerate((row for row in source.splitlines()), start=1):\n')]),
+    ('p15-lines-slice-copy', ['C15'], [(A, '    for i, raw_line in enumerate(source.splitlines(), start=1):\n', '    rows = source.splitlines()\n    for i, raw_line in enumerate(rows[:], start=1):\n')]),
+    ('p15-handler-keeps-assembler-error', ['C15'], [(A, '        try:\n            data = struct.pack(item.fmt, item.imm)\n        except struct.error as e:\n            raise AssemblerError(\'value {} does not fit pack format "{}": {}\'.format(item.imm, item.fmt, e), item.line)\n', '        try:\n            data = struct.pack(item.fmt, item.imm)\n        except Exception as e:\n            if isinstance(e, AssemblerError):\n                raise\n            raise AssemblerError(\'value {} does not fit pack format "{}": {}\'.format(item.imm, item.fmt, e), item.line)\n')]),
+    ('p15-pack-error-alias', ['C15'], [(A, 'def resolve_packs(items):', 'PackError = struct.error\n\n\ndef resolve_packs(items):'), (A, '        try:\n            data = struct.pack(item.fmt, item.imm)\n        except struct.error as e:\n            raise AssemblerError(\'value {} does not fit pack format "{}": {}\'.format(item.imm, item.fmt, e), item.line)\n', '        try:\n            data = struct.pack(item.fmt, item.imm)\n        except PackError as e:\n            raise AssemblerError(\'value {} does not fit pack format "{}": {}\'.format(item.imm, item.fmt, e), item.line)\n')]),
+    ('p15-map-partial-int', ['C15'], [(A, 'import abc\n', 'import abc\nimport functools\n'), (A, '        try:\n            values = [int(value, base=0) for value in item.values]\n        except ValueError as e:\n            raise AssemblerError(str(e), item.line)\n', '        try:\n            values = list(map(functools.partial(int, base=0), item.values))\n        except ValueError as e:\n            raise AssemblerError(str(e), item.line)\n')]),
     ('p15-lexer-findall', ['C15'], [(A, "    tokens = re.split(r'[\\s,]+', contents)\n\n    # remove empty tokens\n    while '' in tokens:\n        tokens.remove('')\n", "    tokens = re.findall(r'[^\\s,]+', contents)\n")]),
     ('p15-local-rule-class', ['C15'], [(A, '    position = 0\n    new_items = []\n    for item in items:\n        # skip non-instructions and pseudo-instructions\n', '    class Rule:\n        def __init__(self, form, checks):\n            self.form = form\n            self.checks = checks\n\n        def matches(self, item, position, env):\n            return all(check(item, position, env) for check in self.checks)\n\n    rules = [Rule(form, checks) for form, checks in criteria.items()]\n\n    position = 0\n    new_items = []\n    for item in items:\n        # skip non-instructions and pseudo-instructions\n', 0), (A, '        try:\n            for name, preds in criteria.items():\n                if all(pred(item, position, env) for pred in preds):\n                    compressed = name\n                    break\n        except ValueError as e:\n            raise AssemblerError(str(e), item.line)\n', '        try:\n            for rule in rules:\n                if rule.matches(item, position, env):\n                    compressed = rule.form\n                    break\n        except ValueError as e:\n            raise AssemblerError(str(e), item.line)\n')]),
     ('p15-map-stages', ['C15'], [(A, '    tokens = [lex_tokens(l) for l in lines]\n    tokens = [t for t in tokens if len(t) > 0]\n    items = [parse_item(t) for t in tokens]\n', '    tokens = [t for t in map(lex_tokens, lines) if len(t) > 0]\n    items = list(map(parse_item, tokens))\n')]),
@@ -447,6 +513,14 @@ PRESERVING = [
 # edits that move the code outside what the analysis can decide: the check must end with ANALYSIS-ERROR (exit 2),
 # neither pass nor claim a violation
 UNDECIDED = [
+    ('c15-line-rebuilt-shifted', ['C15'], [(A, "            line.contents = '{} {}'.format(raw_line, size)\n", "            line = Line(line.file, line.number + 1, '{} {}'.format(raw_line, size))\n")]),
+    ('c15-regex-word-group', ['C15'], [(A, 'def parse_item(line_tokens):', "RE_DECIMAL = re.compile(r'(\\w+)$')\n\n\ndef parse_item(line_tokens):"), (A, "        try:\n            alignment = int(alignment, base=0)\n        except ValueError:\n            raise AssemblerError('alignment must be an integer', line)\n", "        decimal = RE_DECIMAL.match(alignment)\n        if decimal is not None and not alignment.startswith('0'):\n            alignment = int(decimal.group(1))\n        else:\n            try:\n                alignment = int(alignment, base=0)\n            except ValueError:\n                raise AssemblerError('alignment must be an integer', line)\n")]),
+    ('c15-opaque-code-only', ['C15'], [(A, 'def resolve_blobs(items):\n', "def resolve_blobs(items):\n    exec('pass')\n")]),
+    # round 7: table lookups with user keys, conversions behind the repository's own predicate, elements read back
+    ('c15-revisit-appended-element', ['C15'], [(A, "        # swap out the instruction for its compressed counterpart\n        if compressed is not None:\n            if compressed == 'c.addi4spn':", "        if compressed == 'c.ebreak' and new_items:\n            prev = new_items[-1]\n            if isinstance(prev, RTypeInstruction) and prev.name == 'slli' and lookup_register(prev.rd) == 0:\n                compressed = None\n\n        # swap out the instruction for its compressed counterpart\n        if compressed is not None:\n            if compressed == 'c.addi4spn':")]),
+    ('c15-lines-iter-skip-first', ['C15'], [(A, '    for i, raw_line in enumerate(source.splitlines(), start=1):\n', '    rows = iter(source.splitlines())\n    next(rows, None)\n    for i, raw_line in enumerate(rows, start=1):\n')]),
+    ('c15-line-str-vars', ['C15'], [(A, '    def __str__(self):\n        s = \'File "{}", line {}\\n  {}\'\n        s = s.format(self.file, self.number, self.contents.lstrip())\n        return s\n', '    def __str__(self):\n        return \'File "{file}", line {number}\\n  \'.format(**vars(self)) + self.contents.lstrip()\n')]),
+    ('c15-lines-deque', ['C15'], [(A, 'import abc\n', 'import abc\nimport collections\n'), (A, '    for i, raw_line in enumerate(source.splitlines(), start=1):\n', '    pending = collections.deque(source.splitlines())\n    i = 0\n    while pending:\n        raw_line = pending.popleft()\n        i += 1\n')]),
     ('c15-lexer-findall-groups', ['C15'], [(A, "    tokens = re.split(r'[\\s,]+', contents)\n\n    # remove empty tokens\n    while '' in tokens:\n        tokens.remove('')\n", "    tokens = [m[0] for m in re.findall(r'(([^\\s,])+)', contents)]\n")]),
     ('c15-size-in-the-middle', ['C15'], [(A, "            line.contents = '{} {}'.format(raw_line, size)", "            line.contents = '{} {} bytes'.format(raw_line, size)")]),
     ('c15-size-token-via-field', ['C15'], [(A, '        _, path, size = tokens\n        size = int(size, base=0)\n', '        operands = {}\n        for position, word in enumerate(tokens):\n            operands[position] = word\n        size = int(operands[2], base=0)\n')]),
